@@ -57,9 +57,10 @@ func c08Scenario(di int, nthreads int, fine bool) mc.Scenario {
 		}
 		zh.Reset()
 		out := &mc.Outcome{Traces: drv.Threads, Nontrivial: s.Switches > 0}
-		out.Sig = fmt.Sprintf("%s|%v", drv.Name, outs)
+		// distinctness: how the threads actually collided (context switches, pooled objects handed from one thread to the other)
+		out.Sig = fmt.Sprintf("%s|switches=%d|handovers=%d|%v", drv.Name, s.Switches, s.Handovers, outs)
 		out.LazySample = func() any {
-			return map[string]any{"driver": drv.Name, "schedule": x.Labels(), "yield_points": s.Points, "switches": s.Switches, "observations": outs}
+			return map[string]any{"driver": drv.Name, "schedule": x.Labels(), "yield_points": s.Points, "switches": s.Switches, "pool_objects_handed_between_threads": s.Handovers, "observations": outs}
 		}
 		fail := func(key, what, exp, got string) {
 			x.Note("driver: %s (%d threads, fine=%v)", drv.Name, drv.Threads, fine)
@@ -97,7 +98,7 @@ func c08Bounds(tier string) (coarse, fineDevs, coarse3 int) {
 func init() {
 	Register(&Prop{
 		ID:    "C08",
-		Rule:  "one execution = one schedule of a closed driver: 10 drivers, 2 threads (thorough: also 3) each performing 1–2 Parse/Validate/Collect operations on SHARED schema objects with per-thread data, destination and options; choice points: which thread runs first, at every pool Get/Put (thorough: also before every library statement) whether to preempt, which thread continues when one finishes, and which free object each pool Get returns; budget = preemptions + non-LIFO pool answers; oracle: every call's full observation equals the same thread run alone on cleared pools, pool-ownership monitor (no object held by two threads, none released twice), schema-owned values unchanged; non-trivial = at least one context switch; distinct = distinct (driver, observations). Auxiliary: free-running -race pass over the same bodies (sampling, reported separately)",
+		Rule:  "one execution = one schedule of a closed driver: 10 drivers, 2 threads (thorough: also 3) each performing 1–2 Parse/Validate/Collect operations on SHARED schema objects with per-thread data, destination and options; choice points: which thread runs first, at every pool Get/Put (thorough: also before every library statement) whether to preempt, which thread continues when one finishes, and which free object each pool Get returns; budget = preemptions + non-LIFO pool answers; oracle: every call's full observation equals the same thread run alone on cleared pools, pool-ownership monitor (no object held by two threads, none released twice), schema-owned values unchanged; non-trivial = at least one context switch; distinct = distinct (driver, number of context switches, number of pooled objects handed from one thread to another, observations). Auxiliary: free-running -race pass over the same bodies (sampling, reported separately)",
 		Floor: 5,
 		Bound: func(tier string) string {
 			c, f, c3 := c08Bounds(tier)
